@@ -900,7 +900,7 @@ func (runInfo *runInfoStruct) invokeIncludeExpr(expr *ast.IncludeExpr) {
 	if runInfo.err != nil {
 		return
 	}
-	itemExpr := runInfo.rv
+	itemExpr := heldValue(runInfo.rv)
 
 	runInfo.expr = expr.ListExpr
 	runInfo.invokeExpr()
